@@ -300,7 +300,8 @@ def run_query(b, q, mem_gb):
                 r.detail = '%s reports a counterexample; re-solving with a SAT back end for the trace' % sv
                 continue
             # unsat: all obligations hold; now the witness (reachability) with a SAT back end
-            wcmd = base + ['--property', 'vfmain_%s.assertion.1' % q['entry']]
+            # (optional q['witness_solver']: SAT back end for this reachability query, default minisat)
+            wcmd = base + ['--property', 'vfmain_%s.assertion.1' % q['entry']] + SOLVER_FLAGS.get(q.get('witness_solver', 'minisat'), [])
             rc, o, e, s3, to = sh(wcmd, timeout=budget, mem_gb=mem_gb)
             r.secs += s3
             r.solver = sv
